@@ -105,6 +105,7 @@ def clause3_reject(ctx, P, cg):
             any(P.srcname_of(x) == "free_connection" for x in cg.reach(t)) for t in cg.targets(f, i))
             and (not i.callee or P.srcname_of(i.callee) != "http_parser_execute")]
         rc = v.ret_const()
+        frees = [i for i in frees if not (not i.callee and cg.icall_field(f, i) == ("struct.url_handler", P.field_index("struct.url_handler", "create")))]
         if mism:
             nrej += 1
             if len(sends) != 1 or len(frees) != 1 or rc != CLOSED:
@@ -112,8 +113,12 @@ def clause3_reject(ctx, P, cg):
         elif eof:
             if sends or len(frees) != 1 or rc != CLOSED:
                 bad = (v, "end-of-stream path: %d send(s), %d release(s), returns %s" % (len(sends), len(frees), rc))
+        elif rc == CLOSED:
+            # refusal after a well-formed request line (e.g. the handler's object could not be created)
+            if len(sends) != 1 or len(frees) != 1:
+                bad = (v, "refusal path: %d error response(s), %d connection release(s)" % (len(sends), len(frees)))
         else:
-            if frees or rc == CLOSED:
+            if frees:
                 bad = (v, "accepting path releases the connection")
     ctx.ob("C13.3 R-OWN", f, "reject:answer-once-free-once", bad is None and nrej > 0, bad[1] if bad else
            "every rejection sends one status and releases once (%d path(s))" % nrej, witness=bad[0].witness() if bad else None)
